@@ -86,6 +86,8 @@ def edits_for_module(mod, seed):
         devs = devs + sampler_edits(mod)
     if tkey == "MetaModule":
         devs = devs + [{"k": "mm_map", "i": i, "v": [1, 0]} for i in (1, 26, 27, 63, 64, 70, 95)]
+        # the count lowered and raised back: controllers hidden and exposed again keep what they held
+        devs = devs + [{"k": "mm_count_bounce", "lo": lo} for lo in (0, 1)]
     return devs + [o for o in c17.inplace_ops(tkey) if o["k"] not in ("ip_links", "ip_ctlvalues", "ip_optvalues", "mm_uvalue")]
 
 
@@ -243,6 +245,11 @@ def apply_edit(obj, mi, e):
     elif k == "praw":
         pat = obj.patterns[e["p"]]
         pat.raw_data = bytes((i * 7 + 3) % 120 if i % 8 == 0 else (i % 100 if i % 8 == 1 else 0) for i in range(pat.lines * pat.tracks * 8))
+    elif k == "mm_count_bounce":
+        mod = obj.modules[mi] if mi is not None else obj.module
+        n0 = mod.user_defined_controllers
+        mod.user_defined_controllers = min(e["lo"], n0)
+        mod.user_defined_controllers = n0
     elif k in ("smp_field", "smp_loop", "smp_drop", "env_field", "map1", "env_rebind", "sm_effect_set"):
         apply_sampler_edit(obj.modules[mi] if mi is not None else obj.module, e)
     else:
@@ -341,7 +348,9 @@ def check_edit(src, data, mi, e, presave=False, pre=None):
     # finer locality for element-wise payload edits: only the addressed element may change
     allowed = None
     k = e["k"]
-    if k in ("mm_map",):
+    if k == "mm_count_bounce":
+        allowed = ()
+    elif k in ("mm_map",):
         allowed = (f"payload.mappings[{e['i']}]", "controllers")       # + the mapped user-defined controller (N14)
     elif k in ("mcmap", "ip_mcmap"):
         allowed = (f"payload.mappings[{e['i']}]",)
@@ -383,6 +392,23 @@ def check_edit(src, data, mi, e, presave=False, pre=None):
         vs.append(C.viol("edited-object-not-saveable-or-loadable", dict(key, exc=type(ex).__name__), {"error": repr(ex)[:200]}, case))
         return "ok", vs
     d = S.diff(s1n, S.snapshot(o2))
+    if not d and mtype == "MetaModule" and e["k"] in ("mm_map_late", "mm_map", "mm_remap_seq") and not pre:
+        # N13 compares user-defined controllers by their STORED word; the value the accessor PRESENTS (the stored word
+        # seen through the range mirrored from the target) must be the one that is loaded, too
+        def presented(o_):
+            m_ = o_.modules[mi] if mi is not None else o_.module
+            out_ = []
+            for i_ in range(m_.user_defined_controllers):
+                v_ = getattr(m_, f"user_defined_{i_ + 1}")
+                out_.append(int(getattr(v_, "value", v_)) if v_ is not None else None)
+            return out_
+        try:
+            pa, pb = presented(obj), presented(o2)
+        except Exception:
+            pa = pb = None
+        if pa != pb:
+            vs.append(C.viol("edit-not-saved", dict(key, path="user-defined values as presented", stale_replay=False),
+                             {"edited": pa[:12], "loaded": pb[:12]}, case))
     if d:
         # is the saved value the ORIGINAL one (stale replay) or something else?
         stale = any(not S.diff(a, b) for a, b in [(s0, S.snapshot(o2))])
